@@ -15,8 +15,8 @@ def sh(cmd, cwd=None, env=None, timeout=None):
 
 
 def worker(k, q, results, lock):
-    wt = "/tmp/mw/%d" % k
-    cache = "/tmp/mc/%d" % k
+    wt = "%s/%d" % (os.environ.get("VERIF_POOL_WT", "/tmp/mw"), k)
+    cache = "%s/%d" % (os.environ.get("VERIF_POOL_CACHE", "/tmp/mc"), k)
     head = sh(["git", "-C", REPO, "rev-parse", "HEAD"])[1].strip()
     if not os.path.isdir(wt):
         sh(["git", "-C", REPO, "worktree", "add", "--detach", wt, "HEAD", "-q"])
